@@ -109,6 +109,7 @@ class RecWorld(ConnWorld):
         self.oblig: list[dict[str, Any]] = []  # reconnects the property promises: {"created", "due", "why"}
         self.stop_issued = False  # a stop() was issued after the last start(): nothing is promised any more
         self.streak_start = 0  # failures since the last start() that returned (whatever the manager was doing at that moment)
+        self.report_spans: list[tuple[float, float]] = []  # (begin, end) of error reports that took time (slow application callback)
         # start() was called while a session that had survived a completed stop() was still alive (finding F10)
         self.restart_over_live_session = False
 
@@ -154,9 +155,25 @@ class RecWorld(ConnWorld):
         # specified whether at its call or when it takes effect - every reading is accepted
         self.failures.append((self.loop.time(), tuple(sorted({self.streak, self.streak_ret, self.streak_succ, self.streak_start})), auth, self.streak_auth))
         f = self.failures[-1]
-        self.promise(max(self.allowed_waits(f[1], f[2], f[3])), f"failure {f[1]}: back-off")
+        if not getattr(self, "error_slow", False):
+            self.promise(max(self.allowed_waits(f[1], f[2], f[3])), f"failure {f[1]}: back-off")
+        else:
+            self.oblig = []  # nothing is owed while the application is still being told about the failure
         self.streak_auth = self.streak_auth or auth
         self.tags.add("error:" + type(err).__name__)
+        if getattr(self, "error_slow", False):
+            # the application's error callback takes its time (it awaits something): the attempt is over, its report is not
+            import asyncio as _asyncio
+
+            idx = len(self.failures) - 1
+            t_begin = self.loop.time()
+            await _asyncio.sleep(0.25)
+            self.note("on_connect_error_done")
+            self.report_spans.append((t_begin, self.loop.time()))
+            # the back-off runs from the moment the failed attempt has been reported completely
+            t_old, ns, a1, a2 = self.failures[idx]
+            self.failures[idx] = (self.loop.time(), ns, a1, a2)
+            self.promise(max(self.allowed_waits(ns, a1, a2)), f"failure {ns}: back-off")
 
     # --- monitor ----------------------------------------------------------------------------------------
     def promise(self, wait: float, why: str) -> None:
@@ -206,21 +223,24 @@ class RecWorld(ConnWorld):
         return out
 
     def justify(self, now: float) -> str | None:
-        if any(abs(t - now) < EPS for t in self.start_instants):
+        # an attempt that was due while the application was still being told about a failure starts when that report ends
+        instants = [now] + [b for b, e in self.report_spans if abs(e - now) < EPS]
+        if any(abs(t - x) < EPS for t in self.start_instants for x in instants):
             return "start"
-        if any(abs(t - now) < EPS for t in self.record_instants):
+        if any(abs(t - x) < EPS for t in self.record_instants for x in instants):
             return "mdns"
         for t, expected in self.ends:
-            if not expected and abs(t - now) < EPS:
+            if not expected and any(abs(t - x) < EPS for x in instants):
                 return "unexpected-end"
-            if expected and abs(t + 5.0 - now) < EPS:
+            if expected and any(abs(t + 5.0 - x) < EPS for x in instants):
                 return "expected-end+5"
-        for f, n, auth, auth_before in reversed(self.failures):
-            for w in self.allowed_waits(n, auth, auth_before):
-                if abs(f + w - now) < EPS:
-                    between = [x for x in self.successes if f + EPS < x < now - EPS] + [x[0] for x in self.failures if f + EPS < x[0] < now - EPS]
-                    if not between:
-                        return f"backoff-{int(w)}"
+        for x in instants:
+            for f, n, auth, auth_before in reversed(self.failures):
+                for w in self.allowed_waits(n, auth, auth_before):
+                    if abs(f + w - x) < EPS:
+                        between = [y for y in self.successes if f + EPS < y < x - EPS] + [y[0] for y in self.failures if f + EPS < y[0] < x - EPS]
+                        if not between:
+                            return f"backoff-{int(w)}"
         return None
 
     def _after(self, handle: Any) -> None:
@@ -321,6 +341,7 @@ class RecHarness:
     def fresh(self) -> RecWorld:
         w = RecWorld(self.supplied, self.hostname, self.key_text)
         w.connect_raises = self.connect_raises
+        w.error_slow = getattr(self, "error_slow", False)
         for lab in self.seed:
             self.apply(w, lab)
         return w
@@ -550,8 +571,10 @@ class RecHarness:
         w.close()
 
 
-def factory(seed: tuple[str, ...], supplied: bool = False, hostname: bool = False, connect_raises: bool = False) -> RecHarness:
-    return RecHarness(seed, supplied, hostname, None, connect_raises)
+def factory(seed: tuple[str, ...], supplied: bool = False, hostname: bool = False, connect_raises: bool = False, error_slow: bool = False) -> RecHarness:
+    h = RecHarness(seed, supplied, hostname, None, connect_raises)
+    h.error_slow = error_slow
+    return h
 
 
 # ---------------------------------------------------------------------------------------------------
@@ -631,6 +654,7 @@ SEEDS: list[tuple[Any, ...]] = [
     (("rl_start", "tcp_ok", "hello_ok"), False, True),
     (("rl_start", "tcp_ok", "hello_ok", "rl_stop"), False),  # stopped, the session still alive
     (("rl_start", "tcp_refused"), False, "dev.local."),  # the address written fully qualified (trailing dot), no name given
+    (("rl_start", "tcp_refused", "time", "time"), False, False, False, True),  # the application's on_connect_error callback suspends (0.25 s)
     (("rl_start", "tcp_ok"), False, False, True),  # the application's on_connect callback raises
     (("rl_start", "tcp_refused", "time", "tcp_ok"), False, False, True),
 ]
@@ -684,15 +708,16 @@ def run(tier: str, seed: int) -> Result:
         sd, supplied = cfg[0], cfg[1]
         hostname = (cfg[2] if isinstance(cfg[2], str) else bool(cfg[2])) if len(cfg) > 2 else False
         connect_raises = bool(cfg[3]) if len(cfg) > 3 else False
+        error_slow = bool(cfg[4]) if len(cfg) > 4 else False
         depth, bound = (4, 1) if q else (6, 2)
         left = max(5.0, (t_end - time.monotonic()) / (len(SEEDS) - i))
-        st = explore_parallel(factory, (sd, supplied, hostname, connect_raises), depth=depth, bound=bound, budget_s=left, split_depth=1)
-        per.append({"seed": list(sd), "application_zeroconf": supplied, "hostname_address": hostname, "on_connect_raises": connect_raises, "depth_after_seed": depth, "deviation_bound": bound,
+        st = explore_parallel(factory, (sd, supplied, hostname, connect_raises, error_slow), depth=depth, bound=bound, budget_s=left, split_depth=1)
+        per.append({"seed": list(sd), "application_zeroconf": supplied, "hostname_address": hostname, "on_connect_raises": connect_raises, "on_connect_error_slow": error_slow, "depth_after_seed": depth, "deviation_bound": bound,
                     "executions": st.executions, "states": st.states, "transitions": st.transitions, "time_capped": st.time_capped})
         for v in st.violations:
             clause = v["violated"][0]
             kind = ":".join(clause.split(":")[:2])[:70]
-            res.add(kind, clause, {"harness": "c18", "seed": list(sd), "supplied": supplied, "hostname": hostname, "connect_raises": connect_raises,
+            res.add(kind, clause, {"harness": "c18", "seed": list(sd), "supplied": supplied, "hostname": hostname, "connect_raises": connect_raises, "error_slow": error_slow,
                                    "choices": v["choices"], "violated": v["violated"],
                                    "observations": v["observations"]})
         total.merge(st)
@@ -735,7 +760,7 @@ def replay(rp: dict[str, Any]) -> bool:
         bad = [v for v in res.violations if v.key == rp["key"]]
         print(rp["key"], "->", "still violated" if bad else "holds")
         return not bad
-    h = factory(tuple(d["seed"]), d.get("supplied", False), d.get("hostname", False), d.get("connect_raises", False))
+    h = factory(tuple(d["seed"]), d.get("supplied", False), d.get("hostname", False), d.get("connect_raises", False), d.get("error_slow", False))
     w = h.fresh()
     try:
         v: list[str] = []
